@@ -1,6 +1,6 @@
 /-
 C03 — helper lemmas, part 3: the guest / hosts usage pool is a function of the running config
-(outside the region of finding F20), the writers pool only grows, OnCancel callbacks never run.
+(full strength since fix d6561d4), cancel with an empty callback list releases no writer.
 -/
 import CaddyModel.C03.LemmasS
 
@@ -9,11 +9,6 @@ set_option linter.unusedVariables false
 
 namespace CaddyModel.C03
 open CaddyModel.Lifecycle
-
-/-- F20's region: a reverse proxy whose Provision fails before its upstreams are set up -/
-def Mod.early (m : Mod) : Bool := m.isRp && m.fault == 3
-
-def noEarlyApps (l : List App) : Bool := l.all fun a => a.mods.all fun m => !Mod.early m
 
 theorem decr_incr (f : Nat → Nat) (k : Nat) : decr (incr f k) k = f := by
   funext x; unfold decr incr; split <;> simp
@@ -38,17 +33,15 @@ theorem PB.trans {a b c : State} {l1 l2 l3 : List Live} (h1 : PB a b l1 l2) (h2 
 theorem PB.of_mpool {s s' : State} {live : List Live} (h : s'.mpool = s.mpool) : PB s s' live live := by
   intro k; rw [h]
 
-theorem loadMod_pb (cid app idx : Nat) (m : Mod) (s : State) (live : List Live) (hm : Mod.early m = false) :
+theorem loadMod_pb (cid app idx : Nat) (m : Mod) (s : State) (live : List Live) :
     PB s (loadMod cid app idx m s live).1 live (loadMod cid app idx m s live).2.1 := by
   unfold loadMod
   split
   · exact PB.rfl' _ _
   · unfold loadModAt
     split
-    · rename_i hrp
-      split
-      · rename_i hf
-        simp [Mod.early, hrp, hf] at hm
+    · split
+      · intro k; simp [alloc]
       · split
         · intro k; simp [decr_incr, alloc]
         · intro k
@@ -63,26 +56,24 @@ theorem loadMod_pb (cid app idx : Nat) (m : Mod) (s : State) (live : List Live) 
           by_cases hk : k = m.key <;> simp [hk, List.count_cons] <;> omega
 
 theorem loadMods_pb (cid app : Nat) : ∀ (ms : List Mod) (idx : Nat) (s : State) (live : List Live),
-    (∀ m ∈ ms, Mod.early m = false) →
     PB s (loadMods cid app idx ms s live).1 live (loadMods cid app idx ms s live).2.1
-  | [], _, s, live, _ => PB.rfl' _ _
-  | m :: ms, idx, s, live, hm => by
+  | [], _, s, live => PB.rfl' _ _
+  | m :: ms, idx, s, live => by
     unfold loadMods
-    have h1 := loadMod_pb cid app idx m s live (hm m List.mem_cons_self)
+    have h1 := loadMod_pb cid app idx m s live
     generalize loadMod cid app idx m s live = r at h1
     obtain ⟨s', live', o⟩ := r
     cases o with
-    | none => exact h1.trans (loadMods_pb cid app ms (idx + 1) s' live' (fun m' h' => hm m' (List.mem_cons_of_mem _ h')))
+    | none => exact h1.trans (loadMods_pb cid app ms (idx + 1) s' live')
     | some r => exact h1
 
-theorem loadApp_pb (cid : Nat) (a : App) (s : State) (live : List Live)
-    (hm : ∀ m ∈ a.mods, Mod.early m = false) :
+theorem loadApp_pb (cid : Nat) (a : App) (s : State) (live : List Live) :
     PB s (loadApp cid a s live).1 live (loadApp cid a s live).2.1 := by
   unfold loadApp
   split
   · exact PB.rfl' _ _
   · split
-    · have h1 := loadMods_pb cid a.name a.mods 1 s live hm
+    · have h1 := loadMods_pb cid a.name a.mods 1 s live
       generalize loadMods cid a.name 1 a.mods s live = r at h1
       obtain ⟨s', live', o⟩ := r
       cases o with
@@ -91,7 +82,7 @@ theorem loadApp_pb (cid : Nat) (a : App) (s : State) (live : List Live)
     · unfold loadProbeAppAt
       dsimp only
       have h1 : PB s _ live _ := (PB.of_mpool (s := s) (s' := ev (alloc s) [.prov ⟨s.nseq, cid, a.name, 0⟩]) rfl).trans
-        (loadMods_pb cid a.name a.mods 1 (ev (alloc s) [.prov ⟨s.nseq, cid, a.name, 0⟩]) live hm)
+        (loadMods_pb cid a.name a.mods 1 (ev (alloc s) [.prov ⟨s.nseq, cid, a.name, 0⟩]) live)
       generalize loadMods cid a.name 1 a.mods (ev (alloc s) [.prov ⟨s.nseq, cid, a.name, 0⟩]) live = r at h1
       obtain ⟨s', live', o⟩ := r
       cases o with
@@ -106,16 +97,15 @@ theorem loadApp_pb (cid : Nat) (a : App) (s : State) (live : List Live)
             intro k; simp [keys_append_none, ev]
 
 theorem loadApps_pb (cid : Nat) : ∀ (as : List App) (s : State) (live : List Live),
-    (∀ a ∈ as, ∀ m ∈ a.mods, Mod.early m = false) →
     PB s (loadApps cid as s live).1 live (loadApps cid as s live).2.1
-  | [], s, live, _ => PB.rfl' _ _
-  | a :: as, s, live, hm => by
+  | [], s, live => PB.rfl' _ _
+  | a :: as, s, live => by
     unfold loadApps
-    have h1 := loadApp_pb cid a s live (hm a List.mem_cons_self)
+    have h1 := loadApp_pb cid a s live
     generalize loadApp cid a s live = r at h1
     obtain ⟨s', live', o⟩ := r
     cases o with
-    | none => exact h1.trans (loadApps_pb cid as s' live' (fun a' h' => hm a' (List.mem_cons_of_mem _ h')))
+    | none => exact h1.trans (loadApps_pb cid as s' live')
     | some r => exact h1
 
 /-! logging never touches the guest pool and holds no guest keys -/
@@ -224,16 +214,7 @@ theorem startApps_mpool (cid : Nat) (blocked : List Nat) : ∀ (rest started : L
 
 /-! provisionContext, run -/
 
-theorem noEarly_mem {l : List App} (h : noEarlyApps l = true) :
-    ∀ a ∈ l, ∀ m ∈ a.mods, Mod.early m = false := by
-  intro a ha m hm
-  unfold noEarlyApps at h
-  have := List.all_eq_true.mp h a ha
-  have := List.all_eq_true.mp this m hm
-  simpa using this
-
-theorem provisionContext_mp (cid : Nat) (c : Cfg) (pp : List Nat) (s : State)
-    (hne : noEarlyApps c.apps = true) :
+theorem provisionContext_mp (cid : Nat) (c : Cfg) (pp : List Nat) (s : State) :
     (∀ r, (provisionContext cid c pp s).2.2 = some r → ∀ k, (provisionContext cid c pp s).1.mpool k = s.mpool k) ∧
     ((provisionContext cid c pp s).2.2 = none → ∃ ctx, (provisionContext cid c pp s).2.1 = some ctx ∧
       ctx.cbs = [] ∧ ∀ k, (provisionContext cid c pp s).1.mpool k = s.mpool k + (keys ctx.live).count k) := by
@@ -253,10 +234,7 @@ theorem provisionContext_mp (cid : Nat) (c : Cfg) (pp : List Nat) (s : State)
     omega
   | none =>
     dsimp only
-    have hmem : ∀ a ∈ order pp c.apps, ∀ m ∈ a.mods, Mod.early m = false := by
-      intro a ha
-      exact noEarly_mem hne a ((C01.order_perm pp c.apps).mem_iff.mp ha)
-    have h2 := h1.trans (loadApps_pb cid (order pp c.apps) s1 live1 hmem)
+    have h2 := h1.trans (loadApps_pb cid (order pp c.apps) s1 live1)
     generalize loadApps cid (order pp c.apps) s1 live1 = r2 at h2
     obtain ⟨s2, live2, o2⟩ := r2
     cases o2 with
@@ -287,12 +265,12 @@ theorem finishSettingUp_mp (ctx : Ctx) (post : Bool) (s : State) :
 
 /-- run: a rejected run leaves the pool as it was, an accepted one adds exactly the keys held by
     the new context's modules -/
-theorem run_mp (cid : Nat) (c : Cfg) (e : Env) (s : State) (hne : noEarlyApps c.apps = true) :
+theorem run_mp (cid : Nat) (c : Cfg) (e : Env) (s : State) :
     match (run cid c e s).2.1 with
     | none => ∀ k, (run cid c e s).1.mpool k = s.mpool k
     | some ctx => ctx.cbs = [] ∧ ∀ k, (run cid c e s).1.mpool k = s.mpool k + (keys ctx.live).count k := by
   unfold run
-  have h1 := provisionContext_mp cid c e.pp s hne
+  have h1 := provisionContext_mp cid c e.pp s
   generalize provisionContext cid c e.pp s = r1 at h1
   obtain ⟨s1, o1, e1⟩ := r1
   cases e1 with
@@ -302,6 +280,11 @@ theorem run_mp (cid : Nat) (c : Cfg) (e : Env) (s : State) (hne : noEarlyApps c.
     simp only at hctx
     subst hctx
     dsimp only
+    by_cases hadm : e.adm = 2
+    · simp only [hadm, if_true]
+      intro k
+      rw [hcb, cancel_mpool, hmp k]; omega
+    simp only [hadm, if_false]
     have h2 := startApps_mpool cid e.blocked (order e.ps ctx.apps) [] s1
     generalize startApps cid e.blocked [] (order e.ps ctx.apps) s1 = r2 at h2
     obtain ⟨s2, b⟩ := r2
@@ -329,15 +312,13 @@ theorem run_mp (cid : Nat) (c : Cfg) (e : Env) (s : State) (hne : noEarlyApps c.
         refine ⟨h3.2.2.trans hcb, fun k => ?_⟩
         rw [h3.1, h3.2.1, h2, hmp k]
 
-/-- the pool invariant of reachable states (outside F20's region) -/
+/-- the pool invariant of reachable states -/
 structure Inv5 (s : State) : Prop where
   pool : ∀ k, s.mpool k = (curKeys s).count k
   cbs : ∀ ctx, s.cur = some ctx → ctx.cbs = []
-  rawNE : ∀ c, s.raw = some c → noEarlyApps c.apps = true
-  jsonNE : ∀ c, s.rawJSON = some c → noEarlyApps c.apps = true
 
 theorem inv5_init : Inv5 State.init :=
-  ⟨by simp [State.init, curKeys], by simp [State.init], by simp [State.init], by simp [State.init]⟩
+  ⟨by simp [State.init, curKeys], by simp [State.init]⟩
 
 def keysOpt : Option Ctx → List Nat
   | none => []
@@ -355,23 +336,19 @@ theorem unsyncedStop_mp (old : Option Ctx) (s : State) (hc : ∀ ctx, old = some
     dsimp only
     rw [hc ctx rfl, cancel_mpool, stopApps_mpool]; rfl
 
-theorem inv5_changeTo {s : State} (h : Inv5 s) (c : Cfg) (e : Env) (hne : noEarlyApps c.apps = true) :
+theorem inv5_changeTo {s : State} (h : Inv5 s) (c : Cfg) (e : Env) :
     Inv5 (bump (changeTo c e s)).1 := by
-  have hraw : ∀ c', some c = some c' → noEarlyApps c'.apps = true := by
-    intro c' hc; cases hc; exact hne
   rcases C01.changeTo_cases c e s with ⟨_, h'⟩ | h' | ⟨s1, hq, h'⟩ | ⟨s1, r, hok, hq, h'⟩
-  · rw [h']; exact ⟨h.pool, h.cbs, hraw, h.jsonNE⟩
-  · rw [h']; exact ⟨h.pool, h.cbs, h.jsonNE, h.jsonNE⟩
+  · rw [h']; exact ⟨h.pool, h.cbs⟩
+  · rw [h']; exact ⟨h.pool, h.cbs⟩
   · rw [h']
     obtain ⟨s', ctx, hrun, rfl⟩ := C01.decodeAndRun_ok hq
-    have hb := run_mp s.next c e { s with raw := some c } hne
+    have hb := run_mp s.next c e { s with raw := some c }
     rw [hrun] at hb
     simp only at hb
     obtain ⟨hcb, hmp⟩ := hb
     have hu := C01.unsyncedStop_frame4 ({ s with raw := some c } : State).cur { s' with cur := some ctx }
-    have hf := C01.run_frame4 s.next c e { s with raw := some c }
-    rw [hrun] at hf
-    refine Inv5.mk (fun k => ?_) (fun ctx' hx => ?_) (fun c' hx => ?_) hraw
+    refine Inv5.mk (fun k => ?_) (fun ctx' hx => ?_)
     · show (unsyncedStop s.cur { s' with cur := some ctx }).mpool k =
         (match (unsyncedStop ({ s with raw := some c } : State).cur { s' with cur := some ctx }).cur with
           | none => [] | some ctx => keys ctx.live).count k
@@ -384,18 +361,13 @@ theorem inv5_changeTo {s : State} (h : Inv5 s) (c : Cfg) (e : Env) (hne : noEarl
       rw [hu.cur] at this
       cases this
       exact hcb
-    · have : (unsyncedStop ({ s with raw := some c } : State).cur { s' with cur := some ctx }).raw = some c' := hx
-      rw [hu.raw] at this
-      have e2 : s'.raw = some c' := this
-      rw [hf.raw] at e2
-      exact hraw c' e2
   · rw [h']
     unfold decodeAndRun at hq
     split at hq
     · simp at hq
       obtain ⟨rfl, _⟩ := hq
-      exact ⟨h.pool, h.cbs, h.jsonNE, h.jsonNE⟩
-    · have hb := run_mp s.next c e { s with raw := some c } hne
+      exact ⟨h.pool, h.cbs⟩
+    · have hb := run_mp s.next c e { s with raw := some c }
       have hf := C01.run_frame4 s.next c e { s with raw := some c }
       have hnone := run_ctx_none s.next c e { s with raw := some c }
       generalize hrun : run s.next c e { s with raw := some c } = q at hq hb hf hnone
@@ -411,90 +383,48 @@ theorem inv5_changeTo {s : State} (h : Inv5 s) (c : Cfg) (e : Env) (hne : noEarl
         have : s1 = s' := by
           cases res <;> simp at hq hres ⊢ <;> exact hq.1.symm
         subst this
-        refine Inv5.mk (fun k => ?_) (fun ctx hx => ?_) h.jsonNE (fun c' hx => ?_)
+        refine Inv5.mk (fun k => ?_) (fun ctx hx => ?_)
         · show s1.mpool k = (match s1.cur with | none => [] | some ctx => keys ctx.live).count k
           rw [hf.cur, hb k]
           exact h.pool k
         · have : s1.cur = some ctx := hx
           rw [hf.cur] at this
           exact h.cbs ctx this
-        · have : s1.rawJSON = some c' := hx
-          rw [hf.rawJSON] at this
-          exact h.jsonNE c' this
-
-/-- operations that stay outside F20's region: no submitted reverse proxy fails early -/
-def opNE : Op → Prop
-  | .load c _ => noEarlyApps c.apps = true
-  | .validate c _ => noEarlyApps c.apps = true
-  | .patch a _ => noEarlyApps [a] = true
-  | _ => True
-
-instance (op : Op) : Decidable (opNE op) := by
-  cases op <;> unfold opNE <;> infer_instance
-
-theorem replaceApp_ne (a : App) (ha : noEarlyApps [a] = true) : ∀ (l l' : List App),
-    replaceApp a l = some l' → noEarlyApps l = true → noEarlyApps l' = true
-  | [], _, h, _ => by simp [replaceApp] at h
-  | b :: rest, l', h, hl => by
-    unfold replaceApp at h
-    unfold noEarlyApps at hl ha ⊢
-    simp only [List.all_cons, Bool.and_eq_true, List.all_nil, Bool.and_true] at hl ha
-    split at h
-    · simp at h; subst h
-      simp only [List.all_cons, Bool.and_eq_true]
-      exact ⟨ha, hl.2⟩
-    · generalize hr : replaceApp a rest = r at h
-      cases r with
-      | none => simp at h
-      | some r' =>
-        simp at h; subst h
-        simp only [List.all_cons, Bool.and_eq_true]
-        have := replaceApp_ne a (by unfold noEarlyApps; simpa using ha) rest r' hr (by unfold noEarlyApps; exact hl.2)
-        unfold noEarlyApps at this
-        exact ⟨hl.1, this⟩
-
-theorem sublist_ne {l l' : List App} (h : l'.Sublist l) (hl : noEarlyApps l = true) : noEarlyApps l' = true := by
-  unfold noEarlyApps at hl ⊢
-  apply List.all_eq_true.mpr
-  intro a ha
-  exact List.all_eq_true.mp hl a (h.subset ha)
 
 theorem inv5_same {s s' : State} (h : Inv5 s) (hm : s'.mpool = s.mpool) (hc : s'.cur = s.cur)
-    (hr : s'.raw = s.raw) (hj : s'.rawJSON = s.rawJSON) (r : Res) : Inv5 (bump (s', r)).1 := by
+    (r : Res) : Inv5 (bump (s', r)).1 := by
   refine Inv5.mk (fun k => ?_) (fun ctx hx => h.cbs ctx (by have : s'.cur = some ctx := hx; rwa [hc] at this))
-    (fun c hx => h.rawNE c (by have : s'.raw = some c := hx; rwa [hr] at this))
-    (fun c hx => h.jsonNE c (by have : s'.rawJSON = some c := hx; rwa [hj] at this))
   show s'.mpool k = (match s'.cur with | none => [] | some ctx => keys ctx.live).count k
   rw [hm, hc]; exact h.pool k
 
-theorem inv5_step {s : State} (h : Inv5 s) (op : Op) (hw : opNE op) : Inv5 (step s op).1 := by
+theorem inv5_step {s : State} (h : Inv5 s) (op : Op) : Inv5 (step s op).1 := by
   cases op with
-  | load c e => exact inv5_changeTo h c e hw
+  | load c e => exact inv5_changeTo h c e
   | patch a e =>
     unfold step
-    cases hr : s.raw with
-    | none => exact inv5_same h rfl rfl rfl rfl _
+    cases s.raw with
+    | none => exact inv5_same h rfl rfl _
     | some c0 =>
       dsimp only
-      cases hra : replaceApp a c0.apps with
-      | none => exact inv5_same h rfl rfl rfl rfl _
-      | some apps => exact inv5_changeTo h _ e (replaceApp_ne a hw c0.apps apps hra (h.rawNE c0 hr))
+      cases replaceApp a c0.apps with
+      | none => exact inv5_same h rfl rfl _
+      | some apps => exact inv5_changeTo h _ e
   | del n e =>
     unfold step
-    cases hr : s.raw with
-    | none => exact inv5_same h rfl rfl rfl rfl _
+    cases s.raw with
+    | none => exact inv5_same h rfl rfl _
     | some c0 =>
       dsimp only
-      cases hra : removeApp n c0.apps with
-      | none => exact inv5_same h rfl rfl rfl rfl _
-      | some apps => exact inv5_changeTo h _ e (sublist_ne (removeApp_sublist n c0.apps apps hra) (h.rawNE c0 hr))
-  | junk => exact inv5_same h rfl rfl rfl rfl _
+      cases removeApp n c0.apps with
+      | none => exact inv5_same h rfl rfl _
+      | some apps => exact inv5_changeTo h _ e
+  | junk => exact inv5_same h rfl rfl _
   | validate c e =>
     have hf := C01.validate_frame c e s
-    refine inv5_same h ?_ hf.cur hf.raw hf.rawJSON _
+    refine inv5_same h ?_ hf.cur _
     funext k
     unfold validate
-    have h1 := provisionContext_mp s.next c e.pp s hw
+    have h1 := provisionContext_mp s.next c e.pp s
     generalize provisionContext s.next c e.pp s = q at h1
     obtain ⟨s1, o, r⟩ := q
     cases r with
@@ -506,20 +436,15 @@ theorem inv5_step {s : State} (h : Inv5 s) (op : Op) (hw : opNE op) : Inv5 (step
       dsimp only
       rw [hcb, cancel_mpool, hmp k]; omega
   | stop =>
-    refine Inv5.mk (fun k => ?_) (fun ctx hx => ?_) (fun c hx => ?_) (fun c hx => ?_)
+    refine Inv5.mk (fun k => ?_) (fun ctx hx => ?_)
     · show (unsyncedStop s.cur s).mpool k = 0
       rw [unsyncedStop_mp s.cur s h.cbs k, h.pool k, curKeys_eq]; omega
     · have : (none : Option Ctx) = some ctx := hx
       cases this
-    · have : (none : Option Cfg) = some c := hx
-      cases this
-    · have : (none : Option Cfg) = some c := hx
-      cases this
 
-theorem inv5_runOps : ∀ (ops : List Op) (s : State), Inv5 s → (∀ op ∈ ops, opNE op) → Inv5 (runOps s ops)
-  | [], _, h, _ => h
-  | o :: os, s, h, hw => inv5_runOps os _ (inv5_step h o (hw o List.mem_cons_self))
-      (fun op hop => hw op (List.mem_cons_of_mem _ hop))
+theorem inv5_runOps : ∀ (ops : List Op) (s : State), Inv5 s → Inv5 (runOps s ops)
+  | [], _, h => h
+  | o :: os, s, h => inv5_runOps os _ (inv5_step h o)
 
 /-! with an empty callback list, cancel releases no writer -/
 
